@@ -9,18 +9,25 @@ TASKS = [
 ]
 for suf in ['u64', 'i32', 'u8']:
     TASKS += [
-     {'id': 'write_object_' + suf, 'properties': ['C11', 'C03'], 'slices': ['write_object'] + HELP, 'harness': 'h_write_object_' + suf,
+     {'id': 'write_object_' + suf, 'properties': ['C11', 'C03'], 'slices': ['write_object'] + HELP, 'harness': 'h_write_object_' + suf, 'small_harness': 'hs_write_object_' + suf, 'replay_task': 'write_object',
       'enforce': 'k_write_object_' + suf, 'replace': ['k_expand', 'k_memcpy'],
       'mutants': [('incr_write_pos(new_data_size)', 'incr_write_pos(new_data_size + 1)', 'write_object')] if suf == 'u64' else []},
-     {'id': 'read_object_' + suf, 'properties': ['C11', 'C03'], 'slices': ['read_object'] + HELP, 'harness': 'h_read_object_' + suf,
+     {'id': 'read_object_' + suf, 'properties': ['C11', 'C03'], 'slices': ['read_object'] + HELP, 'harness': 'h_read_object_' + suf, 'small_harness': 'hs_read_object_' + suf, 'replay_task': 'read_object',
       'enforce': 'k_read_object_' + suf, 'replace': ['k_memcpy'],
       'mutants': [('c <= (data_length_ - read_pos_)', '(read_pos_ + c) <= data_length_ + 1', 'has_remaining'), ('incr_read_pos(sizeof(T));', '', 'read_object')] if suf == 'u64' else []},
-     {'id': 'write_vector_' + suf, 'properties': ['C11', 'C03'], 'slices': ['write_vector'] + HELP, 'harness': 'h_write_vector_' + suf,
+     {'id': 'write_vector_' + suf, 'properties': ['C11', 'C03'], 'slices': ['write_vector'] + HELP, 'harness': 'h_write_vector_' + suf, 'small_harness': 'hs_write_vector_' + suf, 'replay_task': 'write_vector',
       'enforce': 'k_write_vector_' + suf, 'replace': ['k_expand', 'k_memcpy'],
       'mutants': [('sizeof(size_t) + sizeof(T) * vector_length', 'sizeof(T) * vector_length', 'write_vector')] if suf == 'u64' else []},
-     {'id': 'read_vector_' + suf, 'properties': ['C11', 'C03'], 'slices': ['read_vector'] + HELP, 'harness': 'h_read_vector_' + suf,
+     {'id': 'read_vector_' + suf, 'properties': ['C11', 'C03'], 'slices': ['read_vector'] + HELP, 'harness': 'h_read_vector_' + suf, 'small_harness': 'hs_read_vector_' + suf, 'replay_task': 'read_vector',
       'enforce': 'k_read_vector_' + suf, 'replace': ['k_memcpy'],
       'mutants': [('c <= (data_length_ - read_pos_)', '(read_pos_ + c) <= data_length_', 'has_remaining'), ('setstate(std::ios::failbit);', '', 'read_vector')] if suf == 'u64' else []},
+    ]
+for suf in ['u64', 'i32', 'u8']:
+    TASKS += [
+     {'id': 'lemma_roundtrip_vector_' + suf, 'properties': ['C11', 'C03'], 'slices': [], 'harness': 'h_rt_vector_' + suf,
+      'replace': ['k_write_vector_' + suf, 'k_read_vector_' + suf]},
+     {'id': 'lemma_roundtrip_object_' + suf, 'properties': ['C11', 'C03'], 'slices': [], 'harness': 'h_rt_object_' + suf,
+      'replace': ['k_write_object_' + suf, 'k_read_object_' + suf]},
     ]
 UNIT = {
  'slices': [
